@@ -101,9 +101,6 @@ def coq_files():
         for f in files:
             if f.endswith(".v"):
                 fs.append(os.path.join(root, f))
-    for f in os.listdir(EXTRACT_SRC):
-        if f.endswith(".v"):
-            fs.append(os.path.join(EXTRACT_SRC, f))
     return sorted(fs)
 
 
@@ -126,11 +123,28 @@ def coq_gate():
     return bad
 
 
+COQ_WARN = "-notation-overridden,-deprecated-hint-without-locality,-deprecated-syntactic-definition"
+
+
+def coq_project():
+    """_CoqProject is generated from the directory listing (Model/, Proofs/, Properties/)."""
+    lines = ["-Q . GE", "-arg -w -arg " + COQ_WARN]
+    for d in ("Model", "Proofs", "Properties"):
+        for f in sorted(os.listdir(os.path.join(COQ, d))):
+            if f.endswith(".v"):
+                lines.append("%s/%s" % (d, f))
+    txt = "\n".join(lines) + "\n"
+    p = os.path.join(COQ, "_CoqProject")
+    if not os.path.exists(p) or open(p).read() != txt:
+        open(p, "w").write(txt)
+        return True
+    return False
+
+
 def coq_build():
     """Full .vo build via coq_makefile/make. Returns (ok, log)."""
     with Lock("coq"):
-        if not os.path.exists(os.path.join(COQ, "Makefile")) or \
-                os.path.getmtime(os.path.join(COQ, "Makefile")) < os.path.getmtime(os.path.join(COQ, "_CoqProject")):
+        if coq_project() or not os.path.exists(os.path.join(COQ, "Makefile")):
             sh("coq_makefile -f _CoqProject -o Makefile", cwd=COQ)
         p = sh("timeout 3000 make -j16", cwd=COQ, check=False, timeout=3100)
         return p.returncode == 0, (p.stdout + p.stderr).decode("utf8", "replace")
@@ -142,8 +156,7 @@ def coq_property(pid):
     src = strip_coq_comments(open(f, encoding="utf8").read())
     theorems = re.findall(r"^\s*Theorem\s+([A-Za-z0-9_']+)", src, re.M)
     with Lock("coq"):
-        p = sh(["timeout", "900", "coqc", "-Q", ".", "GE", "-w", "-notation-overridden,-deprecated-hint-without-locality,-deprecated-syntactic-definition",
-                "Properties/%s.v" % pid], cwd=COQ, check=False)
+        p = sh(["timeout", "900", "coqc", "-Q", ".", "GE", "-w", COQ_WARN, "Properties/%s.v" % pid], cwd=COQ, check=False)
     out = (p.stdout + p.stderr).decode("utf8", "replace")
     ok = p.returncode == 0
     closed = out.count("Closed under the global context")
@@ -170,24 +183,57 @@ def _hash_files(files):
     return h.hexdigest()
 
 
+def gen_extract_v():
+    imports, roots = [], []
+    rd = os.path.join(EXTRACT_SRC, "roots")
+    for f in sorted(os.listdir(rd)):
+        for line in open(os.path.join(rd, f)):
+            line = line.split("#")[0].strip()
+            if not line:
+                continue
+            if line.startswith("import "):
+                if line[7:] not in imports:
+                    imports.append(line[7:])
+            elif line not in roots:
+                roots.append(line)
+    return ("(* generated from extract/roots/*.txt; only ExtrOcamlBasic directives are used *)\n"
+            "From Coq Require Extraction ExtrOcamlBasic.\n"
+            "From GE Require Import %s.\nExtraction Language OCaml.\nSeparate Extraction\n  %s.\n" % (
+                " ".join(imports), "\n  ".join(roots)))
+
+
 def modelrun_build():
     with Lock("extract"):
         os.makedirs(EXTRACT_OUT, exist_ok=True)
+        hd = os.path.join(EXTRACT_SRC, "handlers")
         srcs = [f for f in coq_files() if "/Model/" in f] + \
-               [os.path.join(EXTRACT_SRC, "Extract.v"), os.path.join(EXTRACT_SRC, "driver.ml")]
+               [os.path.join(EXTRACT_SRC, "driver_base.ml"), os.path.join(EXTRACT_SRC, "driver_main.ml")] + \
+               [os.path.join(hd, f) for f in os.listdir(hd) if f.endswith(".ml")] + \
+               [os.path.join(EXTRACT_SRC, "roots", f) for f in os.listdir(os.path.join(EXTRACT_SRC, "roots"))]
         hv = _hash_files(srcs)
         stamp = os.path.join(EXTRACT_OUT, "stamp")
         exe = os.path.join(EXTRACT_OUT, "modelrun")
         if os.path.exists(stamp) and os.path.exists(exe) and open(stamp).read() == hv:
             return exe
+        ok, blog = coq_build()
+        if not ok:
+            # models must compile even if a proof is broken: compile Model/ files only
+            p = sh("timeout 3000 make -j16 $(ls Model/*.v | sed 's/\\.v$/.vo/')", cwd=COQ, check=False)
+            if p.returncode != 0:
+                raise Infra("Coq models do not compile:\n" + (p.stdout + p.stderr).decode("utf8", "replace")[-3000:])
         for f in os.listdir(EXTRACT_OUT):
-            if f.endswith((".ml", ".mli", ".cmi", ".cmx", ".o", ".vo", ".vok", ".vos", ".glob")):
+            if f.endswith((".ml", ".mli", ".cmi", ".cmx", ".o", ".vo", ".vok", ".vos", ".glob", ".v")):
                 os.remove(os.path.join(EXTRACT_OUT, f))
-        sh(["timeout", "900", "coqc", "-Q", COQ, "GE", os.path.join(EXTRACT_SRC, "Extract.v"),
-            "-o", os.path.join(EXTRACT_OUT, "Extract.vo")], cwd=EXTRACT_OUT)
-        sh("cp %s/driver.ml ." % EXTRACT_SRC, cwd=EXTRACT_OUT)
-        sh("ocamlfind ocamlopt -O3 -w -a -o modelrun $(ocamlfind ocamldep -sort *.mli *.ml) 2>/dev/null || "
-           "ocamlfind ocamlopt -w -a -o modelrun $(ocamlfind ocamldep -sort *.mli *.ml)", cwd=EXTRACT_OUT)
+        open(os.path.join(EXTRACT_OUT, "Extract.v"), "w").write(gen_extract_v())
+        sh(["timeout", "900", "coqc", "-Q", COQ, "GE", "Extract.v"], cwd=EXTRACT_OUT)
+        sh("cp %s/driver_base.ml %s/driver_main.ml ." % (EXTRACT_SRC, EXTRACT_SRC), cwd=EXTRACT_OUT)
+        hs = []
+        for f in sorted(os.listdir(hd)):
+            if f.endswith(".ml"):
+                sh(["cp", os.path.join(hd, f), os.path.join(EXTRACT_OUT, "h_" + f)])
+                hs.append("h_" + f)
+        sh("ocamlfind ocamlopt -w -a -o modelrun $(ocamlfind ocamldep -sort $(ls *.mli *.ml | grep -v '^h_\\|^driver_')) "
+           "driver_base.ml %s driver_main.ml" % " ".join(hs), cwd=EXTRACT_OUT)
         open(stamp, "w").write(hv)
         return exe
 
